@@ -328,3 +328,21 @@ ADDED12 = {
 for _pid, _extra in ADDED12.items():
     t, text, note, ref = CLAIMED[_pid]
     CLAIMED[_pid] = (t, text + _extra, note, ref)
+ADDED13 = {
+ "C01": " Round 13: the macro expander hands back the form its loop stopped at and nothing else, and is called only at the top of the loop and by the macroexpand form (C01.expansion-only); a binding made through a helper method of the scope counts as a binding of the parameter binder.",
+ "C03": " Round 13: in the binder's recover handler only a value asserted to be an error goes to the constructor that formats it: every other thrown value is stored whole (part of C20.panic, adopted as C03.builtin-panic).",
+ "C05": " Round 13: no bound function with a pointer result returns the nil pointer together with a nil error (C05.typed-nil).",
+ "C06": " Round 13: the reader leaves the scanner's token rules (Mode, Whitespace, IsIdentRune) as Init set them (C06.token-rules); an identifier is read as a value other than a symbol only under the printer's spelling of that value (C06.literals).",
+ "C09": " Round 13: the methods of Atom that never hold its write lock change nothing of the object, atomic flags included (C09.readers-pure); C10.ctx adopted as C09.issuer-ctx.",
+ "C11": " Round 13: sends to and receives from package-level channels count as package-level state (C11.package-state).",
+ "C12": " Round 13: C02.write adopted as C12.template-write (the literal parts of a template are the source's own objects; no builtin writes into what it was handed); an expander return that passes on a callee's results is not a return of the loop form.",
+ "C13": " Round 13: an answer of a variadic builtin made from individually indexed arguments only is given where the number of arguments is known not to exceed the highest index used (C13.all-arguments).",
+ "C15": " Round 13: every iteration of AddPreamble's loop over the value table writes that entry's line (C15.every-entry); C16.atom-last adopted (collection readers read their elements through the dispatcher, which is where placeholders are recognised).",
+ "C16": " Round 13: C19.wrap adopted as C16.lisp-wrap (the closing text of load-file's wrapper starts on a new line).",
+ "C17": " Round 13: C15.format adopted as C17.preamble-format (the preamble always ends in the blank line its reader stops at, so no program line is consumed and rows are not shifted).",
+ "C19": " Round 13: the L-notation constructors store the strings they are given as given (C19.lnotation-verbatim); nothing that runs during evaluation compares the element slice of a list or vector with nil (C19.nil-blind).",
+ "C20": " Round 13: the function value a registration binds is an adapter closure made in that registration (C20.own-adapter); the derived name passes through cutting, lower-casing and the _ to - replacement only (part of C20.name); adapters, builders, result adapters and bounds are followed into a function of the package that makes the adapters, and bounds are followed as values when they are no captured variables.",
+}
+for _pid, _extra in ADDED13.items():
+    t, text, note, ref = CLAIMED[_pid]
+    CLAIMED[_pid] = (t, text + _extra, note, ref)
